@@ -354,6 +354,8 @@ def shapes(tier):
             # absent primary variables inside a block's list (blank fields, also a whole blank first line): they stay in place
             dict(nblocks=1, nvars=4, por=True, perm=False, seq=False, timing=False, reset=True, absent=(0, 1)),
             dict(nblocks=2, nvars=6, por=False, perm=False, seq=True, timing=True, reset=False, absent=(1, 4), cycles=3),
+            # a wholly blank first line and a blank last field on the second, read with num_variables (defect fixed by 408c609)
+            dict(nblocks=1, nvars=9, por=True, perm=True, seq=False, timing=False, reset=True, absent=(0, 1, 2, 3, 6)),
         ]
         return combos
     for nb in (0, 1, 2, 3):
@@ -367,7 +369,7 @@ def shapes(tier):
                                     cycles=3 if (nvars in (3, 4, 5) and nb <= 2) else 2))
     # round 4: only one sequence number present; reading back into a used object (both flavours, with / without kept timing)
     out += [q for q in shapes('quick') if q.get('reader') == 'used' or q['seq'] in ('nseq', 'nadd') or q.get('absent')]
-    out += [dict(nblocks=1, nvars=9, por=True, perm=True, seq=False, timing=False, reset=True, absent=(0, 1, 2, 3, 6)),
+    out += [dict(nblocks=2, nvars=8, por=True, perm=False, seq=False, timing=True, reset=False, absent=(3, 5)),
             dict(nblocks=1, nvars=3, por=False, perm=False, seq=False, timing=True, reset=False, absent=(1,), reader='used')]
     out += [dict(nblocks=2, nvars=2, por=True, perm=False, seq='nadd', timing=True, reset=False),
             dict(nblocks=2, nvars=2, por=True, perm=False, seq=True, timing=True, reset=False, reader='used'),
